@@ -5,6 +5,6 @@ cd /verif
 for d in seeded/${pre}*/; do
   n=$(basename $d)
   id=$(python3 -c "import json;print(json.load(open('$d/meta.json'))['caught_by'][0])")
-  res=$(tools/try_mutant.sh $d/patch.diff $tier $id 2>&1 | grep -E "^$id rc=" | head -n 1 | cut -c1-120)
+  res=$(tools/try_mutant.sh /verif/$d/patch.diff $tier $id 2>&1 | grep -E "^$id rc=" | head -n 1 | cut -c1-120)
   echo "$n -> $res"
 done
